@@ -9,7 +9,7 @@ GO = lambda pkg: ("package %s\n\nvar v = marker\n" % pkg).encode()
 FILE_GO = ["a.go", "b.go", "m.go", "z_test.go", ".hidden.go", "_under.go", "x.go", "A.go", "a-b.go", "go.go", ".go"]
 FILE_OTHER = ["README.md", "a.txt", "go", "a.gox", "b.go.bak", "Makefile", "c.GO", "d.go~", "a.go.123456789.tmp", "m.go.orig"]
 DIR_OK = ["pkg", "sub", "a-b", "a", "internal", "x.go", "v.endor", "testdata2", "Vendor", "cmd", "b", "go"]
-DIR_EXCL = ["vendor", "testdata", ".git", "_tmp", ".x", "_"]
+DIR_EXCL = ["vendor", "testdata", ".git", "_tmp", ".x", "_", "_gen.go", ".pb.go", "_.go", ".cache.go"]
 
 
 def gen_tree(rng, depth=0, maxdepth=3):
@@ -91,7 +91,14 @@ def gen_args(rng, t, cwd):
             a = rng.choice([d, d + "/...", "./" + d, d + "/", d + "/.", os.path.join(cwd, d), os.path.join(cwd, d) + "/..."])
         elif r < 0.75 and files:
             f = rng.choice(files)
-            a = rng.choice([f, "./" + f, os.path.join(cwd, f)])
+            dn, bn = os.path.dirname(f), os.path.basename(f)
+            spellings = [f, "./" + f, os.path.join(cwd, f), cwd + "/./" + f, cwd + "//" + f, "./" + (dn + "/" if dn else "") + "./" + bn]
+            if dn:
+                spellings += [os.path.join(cwd, dn, "..", os.path.basename(dn), bn), dn + "/../" + os.path.basename(dn) + "/" + bn]
+            a = rng.choice(spellings)
+            if rng.random() < 0.4:
+                # the same file reached a second way in the same run (another spelling, or its directory)
+                args.append(rng.choice(spellings + [dn or "."]))
         elif r < 0.85 and syms:
             a = rng.choice(syms)
         elif r < 0.93 and dirs:
